@@ -579,7 +579,9 @@ func runCheck(prop, tier string) int {
 	status := "held"
 	if exit == 1 {
 		status = "violated"
-	} else if conclusive < minConclusive || len(sigs) < 2 {
+	} else if conclusive < minConclusive || len(sigs) < 2 || 3*inconclusive > evals {
+		// also when more than a third of the cases could not be decided (watchdogs,
+		// dead workers): "held" would then speak for a minority of what was tried
 		status = "inconclusive"
 		exit = 3
 	}
